@@ -16,11 +16,16 @@ Plans == { <<>>,
            \* a well-formed handshake with an unsupported version must leave the connection un-handshaken
            <<H("handshake"), B("handshake", 0)>>, <<H("handshake"), B("handshake", 2)>>, <<H("handshake"), B("handshake", 3)>>,
            <<H("handshake"), B("handshake", 2), H("auth"), B("auth", 1)>>,
-           <<H("handshake"), B("handshake", 3), H("handshake"), B("handshake", 1)>> }
+           <<H("handshake"), B("handshake", 3), H("handshake"), B("handshake", 1)>>,
+           \* an empty key, and an auth whose body is absent (the next header is decoded as its body: empty key)
+           <<H("handshake"), B("handshake", 1), H("auth"), B("auth", 2)>>,
+           <<H("handshake"), B("handshake", 1), H("auth"), H("members"), H("stats")>>,
+           <<H("handshake"), B("handshake", 1), H("auth"), H("stats"), H("event"), B("event", 1)>> }
 
 \* pipelined requests: every command with its valid body, plus a wrong key and unsupported handshakes
-\* (leave only as the last request of a batch: the agent is gone afterwards and the trace ends)
-BReqs == { <<c, 1>> : c \in Cmds } \cup { <<"auth", 0>>, <<"handshake", 0>>, <<"handshake", 2>> }
+\* (leave only as the last request of a batch: the agent is gone afterwards and the trace ends; no unknown command:
+\* the hang-up that follows it deregisters a stream / monitor of the same batch before the harness can see it)
+BReqs == { <<c, 1>> : c \in Cmds \ {"bogus"} } \cup { <<"auth", 0>>, <<"auth", 2>>, <<"handshake", 0>>, <<"handshake", 2>> }
 BKey  == { <<"auth", 1>>, <<"auth", 0>>, <<"handshake", 1>>, <<"stats", 1>>, <<"event", 1>> }
 BatchPlans == {  \* a rejected command, the right key and a command in ONE write (and relatives)
   <<H("handshake"), B("handshake", 1), [a |-> "b3", r |-> << <<"members", 1>>, <<"auth", 1>>, <<"stats", 1>> >>]>>,
